@@ -249,7 +249,11 @@ impl McnkChunk {
         // TODO: Add split file support with chunk discovery
         let materials = None;
 
-        let refs = if header.has_refs() {
+        // ofs_refs is shared: it names MCRF, or MCRD/MCRW when the chunk has no MCRF
+        // (Cataclysm+). Only a sub-chunk that really is MCRF is read as MCRF.
+        let refs = if header.has_refs()
+            && subchunk_id_at(reader, mcnk_start_offset, header.ofs_refs)? == Some(ChunkId::MCRF)
+        {
             let data = read_subchunk(reader, mcnk_start_offset, header.ofs_refs, "MCRF")?;
             if !data.is_empty() {
                 Some(McrfChunk::read_le(&mut std::io::Cursor::new(data))?)
@@ -260,30 +264,25 @@ impl McnkChunk {
             None
         };
 
-        // MCRD shares ofs_refs with MCRF (Cataclysm+ split files)
-        // TODO: Add version/file-type detection to distinguish MCRF vs MCRD
-        let doodad_refs = if header.has_refs() {
-            let data = read_subchunk(reader, mcnk_start_offset, header.ofs_refs, "MCRF")?;
+        // MCRD and MCRW have no header slot and no counts of their own (n_doodad_refs /
+        // n_map_obj_refs describe MCRF), so they are located by their magic. Reading them
+        // from the ofs_refs position returned the MCRF payload instead of their own.
+        let doodad_refs = {
+            let data = scan_for_subchunk(reader, mcnk_start_offset, mcnk_size, ChunkId::MCRD)?;
             if !data.is_empty() {
                 Some(McrdChunk::read_le(&mut std::io::Cursor::new(data))?)
             } else {
                 None
             }
-        } else {
-            None
         };
 
-        // MCRW shares ofs_refs with MCRF (Cataclysm+ split files)
-        // TODO: Add version/file-type detection to distinguish MCRF vs MCRD/MCRW
-        let wmo_refs = if header.has_refs() {
-            let data = read_subchunk(reader, mcnk_start_offset, header.ofs_refs, "MCRF")?;
+        let wmo_refs = {
+            let data = scan_for_subchunk(reader, mcnk_start_offset, mcnk_size, ChunkId::MCRW)?;
             if !data.is_empty() {
                 Some(McrwChunk::read_le(&mut std::io::Cursor::new(data))?)
             } else {
                 None
             }
-        } else {
-            None
         };
 
         // MCAL and MCSH use size from MCNK header, not from subchunk header
@@ -512,6 +511,18 @@ fn read_subchunk<R: Read + Seek>(
     let data = read_chunk_data(reader, subchunk_header.size)?;
 
     Ok(data)
+}
+
+/// Read the chunk ID of the subchunk at `offset` (relative to MCNK chunk start).
+///
+/// Returns `None` when there is no complete subchunk header at that position.
+fn subchunk_id_at<R: Read + Seek>(
+    reader: &mut R,
+    mcnk_start_offset: u64,
+    offset: u32,
+) -> BinResult<Option<ChunkId>> {
+    reader.seek(SeekFrom::Start(mcnk_start_offset + u64::from(offset)))?;
+    Ok(ChunkHeader::read_le(reader).ok().map(|h| h.id))
 }
 
 /// Read a subchunk with a known expected size.
